@@ -69,6 +69,8 @@ def gen_case(rng, srcs, i, signed_ing):
          "claim_generator_info": [{"name": "verif " + G.gen_string(rng, 3), "version": "0.%d" % rng.randrange(10)}]}
     if d["title"] is None:
         del d["title"]
+    elif rng.random() < 0.25:
+        d["title"] = rng.choice([" ", "\t", ""]) + d["title"] + rng.choice([" ", "  ", "\n", ".jpg "])    # leading/trailing whitespace is content
     if version == 1 and rng.random() < 0.5:
         d["claim_generator_info"].append({"name": "second-tool"})     # claim v2 allows exactly one
     if rng.random() < 0.2:
@@ -116,8 +118,8 @@ def gen_case(rng, srcs, i, signed_ing):
     pool = []
     for _ in range(rng.choice([0, 1, 2, 3, 3, 4, 6])):
         lab = G.gen_label(rng, pool)
-        while lab.endswith("_") or "__" in lab:        # `__<n>` is the instance syntax: such labels are outside the definition space
-            lab = lab.rstrip("_").replace("__", "_") + "a"
+        while re.sub(r"(\.v\d+)+$", "", lab).endswith("_") or "__" in lab:   # `__<n>` is the instance syntax: such labels are outside the definition space
+            lab = re.sub(r"_+((?:\.v\d+)*)$", r"a\1", lab).replace("__", "_")
         pool.append(lab)
         a = {"label": lab, "data": G.gen_payload(rng, allow_big=rng.random() < 0.5)}
         if rng.random() < 0.4:
@@ -161,9 +163,15 @@ def claim_label(l):
 
 
 def version_split(l):
-    """('org.x', 3) for 'org.x.v3' (the C2PA label grammar's version suffix); (l, None) otherwise"""
+    """('org.x', 3) for 'org.x.v3' (the C2PA label grammar's version suffix; repetitions of the same suffix are
+    removed together, as trim_end_matches does); (l, None) otherwise"""
     m = re.match(r"^(.*)\.v(\d+)$", l)
-    return (m.group(1), int(m.group(2))) if m else (l, None)
+    if not m:
+        return (l, None)
+    sfx, root = ".v" + m.group(2), l
+    while root.endswith(sfx):
+        root = root[:-len(sfx)]
+    return (root, int(m.group(2)))
 
 
 def label_with_instance(l, i):
